@@ -542,7 +542,7 @@ func c15Family(ctx *Ctx) error {
 	res.Assumptions = append(res.Assumptions,
 		"user/group names outside the hard-coded entries come from the host's user database; the oracle asks os/user the same questions the library's lookupFn asks",
 		"data-race freedom is observed (race detector, runtime map checks) on the generated concurrent workload, not proved")
-	m, err := common.StartModel()
+	m, err := coalStartModel(ctx)
 	if err != nil {
 		return err
 	}
